@@ -27,6 +27,8 @@ def mutate(r, text):
     if not b:
         return bytes(b)
     for _ in range(r.randrange(1, 4)):
+        if not b:
+            break
         pos = r.randrange(len(b))
         if k == 0:
             del b[pos:pos + r.randrange(1, 8)]
@@ -166,6 +168,21 @@ def cases_for(tier):
                     if w2 != '%s' and w1 not in ('%s',) and ',' in inner and not inner.startswith(('(', '[')):
                         inner = '(' + inner + ')'
                     add('tgt:%d' % k, form % (w1 % inner), 'exec', 'hostile-target')
+    # full-grammar texts (the C06 generator: every statement / expression form and target form of the 3.4 grammar) in all three modes, and
+    # token mutations of them: whatever the compiler does with a syntactically valid tree, it must end in a code object or a SyntaxError
+    import c06
+    for i in range(3000 if tier == 'quick' else 60000):
+        g6 = c06.G(r)
+        k6 = i % 4
+        if k6 == 0:
+            text, mode6 = g6.module(2, 2, r.randrange(1, 4))[0], 'exec'
+        elif k6 == 1:
+            text, mode6 = g6.expr(3).t, 'eval'
+        elif k6 == 2:
+            text, mode6 = g6.simple(2)[0][0] + '\n', 'single'
+        else:
+            text, mode6 = mutate(r, g6.module(2, 2, r.randrange(1, 3))[0]), 'exec'
+        add('g6:%d' % i, text, mode6, 'full-grammar')
     # scope shapes: three nested scopes x what each does with the ONE name x before and after the scope nested in it (bind, read, declare global /
     # nonlocal, delete, import, augment, loop target, a nested def/class/lambda/comprehension of that name, handler name, parameter).  Valid or
     # not, each must give a code object or a SyntaxError: the symbol table and the closure hand-off of the compiler see every combination.
@@ -306,6 +323,6 @@ def run(tier, rep):
     slow = sorted(((g.get('max_us', 0), k) for k, g in res.items() if isinstance(g, dict)), reverse=True)[:5]
     rep.samples = [{'id': c['id'], 'mode': c['mode'], 'text': binascii.unhexlify(c['src_hex'])[:120].decode('utf-8', 'replace'), 'result': (res.get(c['id']) or {}).get('err', {'accepted': True})} for c in (C[5000:5003] + C[-200:-198])]
     rep.rule = ('exhaustive sequences of length <= %d over a %d-fragment alphabet (keywords, operators, literals incl. malformed, indentation, control bytes, non-ASCII, BOM) in all three modes, seeded random sequences up to 200 tokens with invalid UTF-8 injected, '
-                'byte/token mutations of repository .py files and generated programs, hostile assignment targets (statement form x wrappers x leaf), nested scope shapes (3 nested def/class/lambda/comprehension scopes x what each does with one name before/after the nested scope), and size stress (>64KiB jump bodies, >65536 consts/names, nesting up to 10^4..10^5); non-trivial = distinct (feature, outcome type, message prefix or code hash)' % (2 if tier == 'quick' else 3, len(FRAGS)))
+                'byte/token mutations of repository .py files and generated programs, hostile assignment targets (statement form x wrappers x leaf), full-grammar texts of the C06 generator in all three modes and their mutations, nested scope shapes (3 nested def/class/lambda/comprehension scopes x what each does with one name before/after the nested scope), and size stress (>64KiB jump bodies, >65536 consts/names, nesting up to 10^4..10^5); non-trivial = distinct (feature, outcome type, message prefix or code hash)' % (2 if tier == 'quick' else 3, len(FRAGS)))
     rep.extra = dict(counts, slowest_us=slow, timeouts_first_pass=len(timeouts), cases=len(C))
     rep.assumptions = ['watchdog 20 s per compile (120 s for size stress); a timeout counts only if reproduced twice in a fresh idle process', 'accepted inputs are additionally checked by the C12 verifier (static part)']
